@@ -50,8 +50,9 @@ Mutants(e) == { SubSeq(e, 1, k) : k \in 0..(Len(e) - 1) }
 MsgSeeds == { EncAll(<<Desc(112, L(<<B(TRUE)>>)), Desc(115, L(<<Str(<<109>>)>>)), Desc(119, Str(<<104,105>>))>>, "N"),
               EncAll(<<Desc(114, M(<<Sym(<<120>>), UI(1)>>)), Desc(117, Bin(<<1,2>>)), Desc(117, Bin(<<3>>)), Desc(120, M(<<>>))>>, "N") }
 
-Families == { [fam |-> f, depth |-> d] : f \in {"list8", "list32", "map8", "array8", "array32", "described", "described-desc"},
-                                            d \in (IF Deep THEN {8, 64, 1000, 30000, 200000} ELSE {8, 64, 1000, 30000}) }
+Families == { [fam |-> f, depth |-> d] : f \in {"list8", "list32", "map8", "array8", "array32", "described", "described-desc",
+                                                   "described-sym", "described-ulong", "described-list", "mixed", "amqp-value-nest"},
+                                            d \in (IF Deep THEN {8, 64, 200, 500, 1000, 3000, 10000, 30000, 200000} ELSE {8, 64, 500, 1000, 3000, 30000}) }
             \cup { [fam |-> f, depth |-> d] : f \in {"bin32-huge", "str32-huge", "sym32-huge", "list32-hugecount", "map32-hugecount", "array32-hugecount", "array8-zerowidth"},
                                               d \in {1, 2} }
 
